@@ -90,6 +90,11 @@ def check(ctx, rep):
                 g, bb, t = reqs[0]
                 arg = t['args'][-1]
                 ok = any(o.kind == 'agg' and o.stmt is aggs[0][2] for o in origins(g, arg))
+            if ok:
+                # ... and the shell is asked on EVERY path: no return of the body that holds the request is reachable without it
+                g, bb, t = reqs[0]
+                if any(r_ in g.reachable([0], removed_blocks=[bb]) for r_ in g.return_blocks()):
+                    ok = False
             rep.expect('R17.a', ok, key, 'builds %s, one request_from_shell, result to %s' % (variant, uname),
                        'crux_kv %s API `%s`: built %s, %d request(s), un-wrapper %s' % (
                            api, fname, [a[2]['rv']['variant'] for a in aggs], len(reqs), sorted(set(unw_names))))
@@ -138,6 +143,21 @@ def check(ctx, rep):
         err_ok = bool(srcs) and all(o.kind == 'arg' and o.n == 1 and 'as Err' in o.suffix and o.suffix[-1] == '.error' for o in srcs)
         rep.expect('R17.b', err_ok, key + '|error', 'Err(error) returns the shell\'s error (clone tabled)',
                    '%s no longer returns the error reported by the shell unchanged' % uname)
+    # R17.e: every error the app sees was reported by the shell: crux_kv never constructs a KeyValueError itself
+    rep.rule('R17.e', 'crux_kv constructs no KeyValueError of its own (errors are the shell\'s)', floor=1)
+    made = []
+    for f in kv.built:
+        if f.j.get('exp') or '::testing' in f.npath or '::tests' in f.npath:
+            continue
+        for bb, i, s_ in f.stmts('assign'):
+            if s_['rv']['k'] == 'agg' and path_matches(s_['rv'].get('adt'), 'crux_kv::error::KeyValueError'):
+                made.append('%s at %s' % (s_['rv']['variant'], f.where(bb)))
+    rep.expect('R17.e', not made, 'no-fabricated-error', 'no construction of KeyValueError in crux_kv',
+               'crux_kv constructs a KeyValueError itself (%s): the app would see an error the shell never reported' % made)
+    _ctl = ctx.crate('controls', 'crux_verif_controls')
+    _fs = _ctl.find('c15::fabricate_kv_error') if _ctl else []
+    rep.control('R17.e fires on a constructed KeyValueError', bool(_fs) and any(
+        s_['rv']['k'] == 'agg' and path_matches(s_['rv'].get('adt'), 'crux_kv::error::KeyValueError') for _, _, s_ in _fs[0].stmts('assign')))
     # R17.c
     for f in kv.built:
         if f.name != 'from' or not path_matches(f.assoc.get('trait'), 'core::convert::From') or 'value' not in f.npath:
